@@ -72,7 +72,11 @@ func cmdScn(args []string) {
 	for i := range steps {
 		steps[i] = strings.TrimSpace(steps[i])
 	}
-	w, c, res := runScenario(defaultCfg(), steps)
+	cfg := defaultCfg()
+	if os.Getenv("VERIF_REAL_WALLETS") != "" {
+		cfg.RealWallets = true // the real wallet adapters and validators under the machines
+	}
+	w, c, res := runScenario(cfg, steps)
 	defer w.close()
 	for _, o := range w.obs {
 		fmt.Println(o.String())
